@@ -4593,6 +4593,7 @@ py_statements = [
             "\t PyObject_New({PyObject}, &{PyTypeObject});",
             "if ({py_var} == {nullptr}) goto fail;",
             "{py_var}->{PY_type_obj} = {cxx_addr}{cxx_var};",
+            "{py_var}->{PY_type_dtor} = 0;",
         ],
         object_created=True,
 #            post_call_capsule=[
@@ -4613,6 +4614,7 @@ py_statements = [
             "\t PyObject_New({PyObject}, &{PyTypeObject});",
 #                "if ({py_var} == {nullptr}) goto fail;",
             "{py_var}->{PY_type_obj} = {cxx_nonconst_ptr};",
+            "{py_var}->{PY_type_dtor} = 0;",
         ],
         object_created=True,
 #            post_call_capsule=[
